@@ -53,6 +53,9 @@ mod tx_packet_numbers;
 #[cfg(aws_s2n_quic_verif)]
 #[path = "../verif_hooks/session.rs"]
 pub mod verif_session;
+#[cfg(aws_s2n_quic_verif)]
+#[path = "../verif_hooks/crypto_stream.rs"]
+pub mod verif_crypto_stream;
 
 pub(crate) use application::ApplicationSpace;
 pub(crate) use crypto_stream::CryptoStream;
